@@ -138,7 +138,9 @@ def extract_module(path):
                 mm = re.match(r"^(\w+)\s*=\s*(SH_\w+)\s*(?:!.*)?$", b)
                 if mm and calls and mm.group(1) in dummies:
                     copyback[mm.group(1)] = mm.group(2)
-            row = {"name": name, "dummies": dummies, "kinds": kinds, "calls": []}
+            row = {"name": name, "dummies": dummies, "kinds": kinds, "calls": [],
+                   "outputs": [d for d in dummies if intents.get(d) in ("out", "inout")],
+                   "copyback": [d for d in dummies if copyback.get(d) == "SH_" + d]}
             for cname, args in calls:
                 cl = []
                 for a in args:
@@ -147,11 +149,8 @@ def extract_module(path):
                         c = "FBool"
                     # a logical passed through a local of kind C_BOOL: coerced before the call (in / inout), copied back after it
                     # (out / inout); an output that is never copied back is left unrecognised (fail closed)
-                    if c == "FLocal" and a.strip().startswith("SH_") and a.strip()[3:] in dummies and kinds.get(a.strip()[3:]) == "DLog" \
-                            and intents.get(a.strip()[3:]) == "out" and copyback.get(a.strip()[3:]) == a.strip():
-                        c, r = "FBool", a.strip()[3:]
-                    if c == "FBool" and intents.get(r) in ("out", "inout") and copyback.get(r) != a.strip():
-                        c = "FLocal"
+                    if c == "FLocal" and a.strip().startswith("SH_") and a.strip()[3:] in dummies and kinds.get(a.strip()[3:]) == "DLog":
+                        c, r = "FBool", a.strip()[3:]          # whether an output is copied back is the model's rule (outs_ok)
                     if c in ("FLen", "FLenTrim", "FSize") and re.match(r"^(DSH|SHT|SHF|SHadow)", r):
                         c = "FResult"         # the length of the result variable
                     cl.append((c, r))
@@ -172,14 +171,15 @@ def emit_coq(rows, path):
     for r in rows:
         for c in r["calls"]:
             try:
-                items.append("{| fc_name := %s; fc_dummies := [%s]; fc_kinds := [%s]; fc_params := [%s]; fc_args := [%s] |}" % (
+                items.append("{| fc_name := %s; fc_dummies := [%s]; fc_kinds := [%s]; fc_params := [%s]; fc_args := [%s]; fc_outputs := [%s]; fc_copyback := [%s] |}" % (
                     coq_s(r.get("lib", "") + ":" + r["name"] + ">" + c["cname"]), "; ".join(coq_s(d) for d in r["dummies"]),
                     "; ".join("(%s, %s)" % (coq_s(d), r["kinds"].get(d, "DOther")) for d in r["dummies"]),
                     "; ".join(coq_s(p) for p in c["params"]),
                     "; ".join("(%s, %s)" % (cv if cv in ("FDirect", "FCapsule", "FSelf", "FBool", "FLenTrim", "FLen", "FSize", "FTrimNull", "FCLoc", "FResult", "FLocal", "FConvert") else "FUnknown", coq_s(root))
-                              for cv, root in c["args"])))
+                              for cv, root in c["args"]),
+                    "; ".join(coq_s(d) for d in r.get("outputs", [])), "; ".join(coq_s(d) for d in r.get("copyback", []))))
             except Exception:
-                items.append('{| fc_name := "unwritable"; fc_dummies := []; fc_kinds := []; fc_params := ["?"]; fc_args := [] |}')
+                items.append('{| fc_name := "unwritable"; fc_dummies := []; fc_kinds := []; fc_params := ["?"]; fc_args := []; fc_outputs := []; fc_copyback := [] |}')
     with open(path, "w") as f:
         f.write("(* generated on this run: actual arguments of every bind(C) call in the generated Fortran specifics *)\n")
         f.write("From Coq Require Import List String.\nFrom Shroud Require Import Model.FCall.\nImport ListNotations.\nOpen Scope string_scope.\n")
